@@ -100,10 +100,12 @@ class RollingReduction(Expr):
                 # Scalar selection of the only required column: we can
                 # operate on the Series directly and drop the projection
                 return type(self)(self.frame[columns[0]], *self.operands[1:])
-            return type(parent)(
-                type(self)(self.frame[columns], *self.operands[1:]),
-                *parent.operands[1:],
-            )
+            result = type(self)(self.frame[columns], *self.operands[1:])
+            if isinstance(self.groupby_slice, list):
+                # the columns selected from the groupby have to follow the pruned frame
+                groupby_slice = [col for col in self.groupby_slice if col in columns]
+                result = result.substitute_parameters({"groupby_slice": groupby_slice})
+            return type(parent)(result, *parent.operands[1:])
 
     @property
     def _is_blockwise_op(self):
